@@ -453,4 +453,6 @@ def run(ctx):
         dd.feed([gen_case(ctx.rng, 40) for _ in range(10 * min(n, 3000))])
         if quick:
             dd.feed(list(exhaustive(4, 5)))
+    if getattr(ctx, 'proof_broken', None) and not d.oracle_fail and not d.corr_fail:
+        extra(d)             # a broken proof obligation: directed search for a concrete failing input
     d.report(extra)
